@@ -51,7 +51,7 @@ def run(v, tier, replay):
     # the session layer: hostile tube-open sequences against a real session loop (unexported: overlay test in hopserver)
     of_in, of_out = os.path.join(sd, "opens.json"), os.path.join(sd, "opens.ndjson")
     json.dump(opens, open(of_in, "w"))
-    orc, oso, ose = lib.overlay_test("hopserver", "^TestVerifHostileTubeOpens$", env_extra={"VT_IN": of_in, "VT_OUT": of_out}, timeout=900)
+    orc, oso, ose = lib.overlay_test("hopserver", "^TestVerifHostileTubeOpens$", env_extra={"VT_IN": of_in, "VT_OUT": of_out}, timeout=900, only=["zz_verif_grants_test.go", "zz_verif_hostile_test.go"])
     oev = lib.read_ndjson(of_out) if os.path.exists(of_out) else []
     done_i = {e["i"] for e in oev if e["ev"] == "session"}
     if orc != 0 or not any(e["ev"] == "summary" for e in oev):
@@ -84,7 +84,7 @@ def run(v, tier, replay):
         again = [d[0] for d in diffs]
         v.cov["session_model_differences_first_pass"] = len(diffs)
         json.dump(again, open(of_in + ".again", "w"))
-        arc, aso, ase = lib.overlay_test("hopserver", "^TestVerifHostileTubeOpens$", env_extra={"VT_IN": of_in + ".again", "VT_OUT": of_out + ".again"}, timeout=600)
+        arc, aso, ase = lib.overlay_test("hopserver", "^TestVerifHostileTubeOpens$", env_extra={"VT_IN": of_in + ".again", "VT_OUT": of_out + ".again"}, timeout=600, only=["zz_verif_grants_test.go", "zz_verif_hostile_test.go"])
         aev = lib.read_ndjson(of_out + ".again") if os.path.exists(of_out + ".again") else []
         if arc != 0 or not any(e["ev"] == "summary" for e in aev):
             raise lib.Inconclusive("re-run of differing session behaviours failed: %s" % (aso + ase)[-1500:])
